@@ -28,7 +28,8 @@ def RULE(tier):
             "the client is silent / sends 1 / sends 2 bytes of a long HTTP/1.0 request: all 3^9 timings) and tymeout 2.5 (horizon "
             "%d ticks, silent / 1 byte: all 2^%d timings). Oracle per tick: the connection is closed (peer sees EOF, tables empty) "
             "exactly when the server serviced at tyme >= last traffic + tymeout; a connection with traffic in every window is never "
-            "closed. The tree of timings is enumerated completely." % ((13, 13) if tier == "quick" else (16, 16)))
+            "closed. The same for the other direction: the whole request arrives at once and the response drains with the kernel "
+            "accepting 0 / 1 / 2 bytes per tick. The tree of timings is enumerated completely." % ((13, 13) if tier == "quick" else (16, 16)))
 
 
 def EXHAUSTIVE(tier):
@@ -37,7 +38,9 @@ def EXHAUSTIVE(tier):
 
 def jobs(tier):
     long_ticks = 13 if tier == "quick" else 16
-    js = [("C12", tls, 1.0, 9, 3) for tls in (False, True)] + [("C12", tls, 2.5, long_ticks, 2) for tls in (False, True)]
+    js = [("C12", tls, 1.0, 9, 3, "up") for tls in (False, True)] + [("C12", tls, 2.5, long_ticks, 2, "up") for tls in (False, True)]
+    # server-to-client direction: the response drains slowly (kernel accepts 0 or a few bytes per tick)
+    js += [("C12", tls, 1.0, 9, 3, "down") for tls in (False, True)] + [("C12", tls, 2.5, long_ticks, 2, "down") for tls in (False, True)]
     return sharded(js, 16)
 
 
@@ -46,9 +49,22 @@ def app(environ, start_response):
     return [b"ok"]
 
 
+class DrainPolicy(fakenet.Policy):
+    """server side sends are limited to `allow` bytes per call (0 == would block)"""
+
+    def __init__(self):
+        self.allow = None
+
+    def send(self, sock, n):
+        if sock.kind == "accepted" and self.allow is not None:
+            return min(n, self.allow)
+        return n
+
+
 def harness(job, ch):
-    _, tls, tymeout, nticks, nopts = job[:5]
-    net = fakenet.Net()
+    _, tls, tymeout, nticks, nopts, direction = job[:6]
+    pol = DrainPolicy()
+    net = fakenet.Net(pol)
     viol, states = [], []
     tymist = tyming.Tymist(tyme=0.0, tock=TICK)
     with fakenet.Installed(net):
@@ -76,15 +92,21 @@ def harness(job, ch):
         for k in range(nticks):
             tymist.tick()
             t = tymist.tyme
-            n = ch.choose(nopts, "tick%d" % k) if sent < len(REQ) else 0
-            pattern.append(n)
-            before_rx = len(raw.sent)
-            if n and not raw.rx_eof and not raw.closed:
-                try:
-                    raw.send(REQ[sent:sent + n])
-                    sent += n
-                except OSError:
-                    pass
+            if direction == "up":
+                n = ch.choose(nopts, "tick%d" % k) if sent < len(REQ) else 0
+                pattern.append(n)
+                if n and not raw.rx_eof and not raw.closed:
+                    try:
+                        raw.send(REQ[sent:sent + n])
+                        sent += n
+                    except OSError:
+                        pass
+            else:
+                if k == 0:
+                    raw.send(REQ)          # whole request at once; the response then drains slowly
+                n = ch.choose(nopts, "tick%d" % k)
+                pattern.append(n)
+                pol.allow = n              # bytes the kernel accepts from the server in this tick
             srv_sock = raw.peer
             tx_before = len(srv_sock.sent) if srv_sock is not None else 0
             rx_before = len(srv_sock.delivered) if srv_sock is not None else 0
@@ -97,7 +119,7 @@ def harness(job, ch):
             closed = (srv_sock is None) or srv_sock.closed
             in_tables = bool(server.servant.ixes) or bool(getattr(server.servant, "cxes", {})) or bool(server.reqs)
             states.append((k, n, traffic, closed, in_tables, round(t - last, 3)))
-            complete = sent >= len(REQ)
+            complete = sent >= len(REQ) if direction == "up" else False
             if complete:
                 break                  # request fully delivered: the exchange ends by the non-persistent rule, not by idleness
             idle_for = t - last        # before accounting this tick's traffic
@@ -105,14 +127,15 @@ def harness(job, ch):
                 last = t
             if closed and closed_at is None:
                 closed_at = t
-                if traffic or idle_for < tymeout:
-                    viol.append(("closed-while-active:%s" % ("tls" if tls else "plain"),
+                if idle_for < tymeout:   # (bytes flushed by the closing call itself are not traffic that keeps it alive)
+                    viol.append(("closed-while-active:%s%s" % ("tls" if tls else "plain", ":response-draining" if direction == "down" else ""),
                                  "tymeout %s: connection closed at tyme %s, last traffic at %s (pattern %s)" % (tymeout, t, last if traffic else t - idle_for, pattern)))
                 if in_tables:
                     viol.append(("closed-but-in-tables", "socket closed at %s but server tables still hold the connection" % t))
                 break
             if not closed and not traffic and idle_for >= tymeout:
-                viol.append(("idle-not-closed:%s:%s" % ("late" if _closes_later(server, tymist, raw, 8) else "never", "tls" if tls else "plain"),
+                viol.append(("idle-not-closed:%s:%s%s" % ("late" if _closes_later(server, tymist, raw, 8) else "never", "tls" if tls else "plain",
+                                                           ":response-stalled" if direction == "down" else ""),
                              "tymeout %s: no traffic since tyme %s, serviced at %s, connection still open (pattern %s)" % (tymeout, last, t, pattern)))
                 break
         if escaped:
